@@ -51,24 +51,86 @@ def _error_clauses(body, ir, variant="Malformed"):
     return out
 
 
-# (name, predicate over (expr, truth)) -- each clause must be found at least once among the error edges
-def _has(e, *subs):
-    t = show(e)
-    return all(s in t for s in subs)
+# ---- exact clause table -------------------------------------------------------------------------------------
+# Reader::check is a pure validator: every comparison it branches on either lets the file pass or refuses it.  For each
+# comparison the *refusal relation* `A op B` is recovered (the operands as written, the operator folded with the negations
+# and with the side of the branch from which Ok(()) is no longer reachable) and put into a canonical orientation (the
+# operand that is a value of the file tables on the left).  Each line below names a clause by the shape of its operands
+# (struct fields of the format, constants) and gives the operator under which the file must be refused.
+FLIP = {"Lt": "Gt", "Le": "Ge", "Gt": "Lt", "Ge": "Le", "Eq": "Eq", "Ne": "Ne"}
+NEGATE = {"Lt": "Ge", "Le": "Gt", "Gt": "Le", "Ge": "Lt", "Eq": "Ne", "Ne": "Eq"}
+SYM = {"Lt": "<", "Le": "<=", "Gt": ">", "Ge": ">=", "Eq": "==", "Ne": "!="}
 
 
-CLAUSES = [
-    ("type_id within [0, ITEMTYPE_ID_RANGE)", lambda e, t: e[0] == "bin" and e[1] in ("Lt", "Le", "Ge", "Gt") and _has(e, "type_id")),
-    ("start == expected_start", lambda e, t: e[0] == "bin" and e[1] in ("Ne", "Eq") and _has(e, ".start", "expected_start")),
-    ("0 <= num <= num_items - start", lambda e, t: e[0] == "bin" and e[1] in ("Le", "Lt", "Gt", "Ge") and _has(e, ".num", "num_items")),
-    ("last type ends at num_items", lambda e, t: e[0] == "bin" and e[1] in ("Ne", "Eq") and _has(e, "expected_start", "num_items") and not _has(e, ".start")),
-    ("item offset non-negative", lambda e, t: e[0] == "bin" and e[1] in ("Lt", "Ge") and _has(e, "item_offsets") and e[3][0] == "c" and e[3][1] == 0),
-    ("item offsets contiguous", lambda e, t: e[0] == "bin" and e[1] in ("Ne", "Eq") and _has(e, "item_offsets", "offset")),
-    ("item inside size_items", lambda e, t: e[0] == "bin" and e[1] in ("Gt", "Le") and _has(e, "offset", "size_items")),
-    ("item size non-negative", lambda e, t: e[0] == "bin" and e[1] in ("Lt", "Ge") and _has(e, "item_header", ".size") and e[3][0] == "c" and e[3][1] == 0),
-    ("item size divisible by 4", lambda e, t: e[0] == "bin" and e[1] in ("Ne", "Eq") and e[2][0] == "bin" and e[2][1] == "Rem" and _has(e[2], "item_header", ".size") and e[2][3][0] == "c" and e[2][3][1] == 4),
-    ("items fill size_items exactly", lambda e, t: e[0] == "bin" and e[1] in ("Ne", "Eq") and _has(e, "offset", "size_items")),
-    ("data offsets inside size_data", lambda e, t: e[0] == "bin" and e[1] in ("Gt", "Le", "Lt", "Ge") and _has(e, "size_data")),
+def _is0(e):
+    return e[0] == "c" and e[1] == 0
+
+
+def _txt(e):
+    return show(strip_sites(e))
+
+
+def refusal_relations(body, ir):
+    """[(A, op, B, line)]: the file is refused when `A op B`"""
+    oks = [bi for bi in sorted(body.live) for st in body.blocks[bi]["st"]
+           if st["k"] == "assign" and st["p"]["l"] == 0 and not st["p"].get("pr") and st["r"]["k"] == "agg" and st["r"].get("variant") == "Ok"]
+    out = []
+    for bi in sorted(body.live):
+        t = body.blocks[bi]["term"]
+        if t["k"] != "switch":
+            continue
+        e, neg = strip_not(ir.term_operand(bi, t["o"]))
+        if e[0] != "bin" or e[1] not in NEGATE:
+            continue
+        # which raw value of the switch operand leads to a refusal (Ok(()) unreachable)?
+        raw_refuse = None
+        listed = set()
+        for v, tb in t["targets"]:
+            listed.add(bool(v))
+            if not any(o in body.reachable_from(tb) for o in oks):
+                raw_refuse = bool(v)
+        if raw_refuse is None and len(listed) == 1 and not any(o in body.reachable_from(t["otherwise"]) for o in oks):
+            raw_refuse = not next(iter(listed))
+        if raw_refuse is None:
+            continue
+        holds = raw_refuse if not neg else (not raw_refuse)
+        op = e[1] if holds else NEGATE[e[1]]
+        out.append((e[2], op, e[3], t.get("ln")))
+    return out
+
+
+def _orient(a, op, b, left_pred):
+    """put the operand satisfying left_pred on the left"""
+    if left_pred(a):
+        return a, op, b
+    if left_pred(b):
+        return b, FLIP[op], a
+    return None
+
+
+RANGE_CONST = "libtw2_datafile::format::ITEMTYPE_ID_RANGE"
+# (clause, left-operand predicate, right-operand predicate, refusal operator, how many times)
+EXACT = [
+    ("type_id < 0", lambda a: _txt(a).endswith(".type_id"), _is0, "Lt", 1),
+    ("type_id >= ITEMTYPE_ID_RANGE", lambda a: _txt(a).endswith(".type_id"),
+     lambda b: (b[0] == "c" and len(b) > 3 and (b[3] or "").endswith("ITEMTYPE_ID_RANGE")) or _txt(b).startswith("*&i32") or "ITEMTYPE_ID_RANGE" in _txt(b), "Ge", 1),
+    ("type_id <= previous type_id (ids strictly increasing)", lambda a: _txt(a).endswith(".type_id") and "next" in _txt(a), lambda b: b[0] != "c" and not _txt(b).endswith(".type_id") and "type_id" not in _txt(b).split(".")[-1], "Le", 1),
+    ("type_id == an earlier type's type_id", lambda a: _txt(a).endswith(".type_id"), lambda b: _txt(b).endswith(".type_id"), "Eq", 1),
+    ("start != running total of the previous types", lambda a: _txt(a).endswith(".start"), lambda b: b[0] != "c" and "num_items" not in _txt(b), "Ne", 1),
+    ("num < 0", lambda a: _txt(a).endswith(".num"), _is0, "Lt", 1),
+    ("num > num_items - start", lambda a: _txt(a).endswith(".num"), lambda b: "num_items" in _txt(b) and ".start" in _txt(b), "Gt", 1),
+    ("types do not end at num_items", lambda a: _txt(a).endswith(".num_items"), lambda b: b[0] != "c" and ".num" not in _txt(b) and ".start" not in _txt(b), "Ne", 1),
+    ("item offset < 0", lambda a: "item_offsets" in _txt(a) and a[0] != "cast", _is0, "Lt", 1),
+    ("item offset != running offset", lambda a: "item_offsets" in _txt(a), lambda b: not _is0(b) and "size_items" not in _txt(b), "Ne", 1),
+    ("running offset > size_items", lambda a: "size_items" in _txt(a), lambda b: "item_offsets" not in _txt(b), "Lt", 2),
+    ("item size < 0", lambda a: _txt(a).endswith(".size") and "item_header" in _txt(a), _is0, "Lt", 1),
+    ("item size % 4 != 0", lambda a: a[0] == "bin" and a[1] == "Rem" and ".size" in _txt(a[2]) and a[3][0] == "c" and a[3][1] == 4, _is0, "Ne", 1),
+    ("items do not fill size_items exactly", lambda a: "size_items" in _txt(a), lambda b: "item_offsets" not in _txt(b), "Ne", 1),
+    ("data offset > size_data", lambda a: "size_data" in _txt(a), lambda b: True, "Lt", 1),
+    ("data offset < 0", lambda a: "data_offsets" in _txt(a), _is0, "Lt", 1),
+    ("data offset < previous data offset (offsets non-decreasing)", lambda a: "data_offsets" in _txt(a), lambda b: not _is0(b) and "size_data" not in _txt(b), "Lt", 1),
+    ("uncompressed data size < 0", lambda a: "uncomp_data_sizes" in _txt(a), _is0, "Lt", 1),
+    ("item's type id != its type's id", lambda a: "ItemHeader::type_id" in _txt(a) or "type_id(" in _txt(a), lambda b: ".type_id" in _txt(b), "Ne", 1),
 ]
 
 
@@ -76,20 +138,38 @@ def clauses(prog, rep):
     rule = "R2a-validation-clauses"
     b = prog.one(R + "check")
     ir = IR(b)
-    # Reader::check is a pure validator: every comparison it branches on is a validation clause
-    cl = []
-    for bi in sorted(b.live):
-        t = b.blocks[bi]["term"]
-        if t["k"] == "switch":
-            e2, neg = strip_not(ir.term_operand(bi, t["o"]))
-            if e2[0] == "bin" and e2[1] in ("Lt", "Le", "Gt", "Ge", "Eq", "Ne"):
-                cl.append((e2, True, t.get("ln")))
-    rep.floor(rule, len(cl), 15, "comparisons Reader::check branches on")
-    for name, pred in CLAUSES:
-        hit = [(e, t, ln) for e, t, ln in cl if pred(e, t)]
-        rep.ob(rule, "check | " + name, bool(hit),
-               "clause present: %s" % show(hit[0][0])[:110] if hit else "validation clause `%s` is missing from Reader::check" % name,
-               b.loc(hit[0][2]) if hit else b.loc())
+    rels = refusal_relations(b, ir)
+    rep.floor(rule, len(rels), 15, "comparisons on which Reader::check refuses a file")
+    used = set()
+    for name, lp, rp, want, count in EXACT:
+        found = []
+        wrong = []
+        for idx, (a, op, b_, ln) in enumerate(rels):
+            o = _orient(a, op, b_, lp)
+            if o is None or not rp(o[2]):
+                continue
+            if o[1] == want:
+                found.append((idx, ln))
+            elif (idx, want) not in used:
+                wrong.append((idx, o[1], ln))
+        # a comparison of the right shape with the wrong operator counts as a wrong clause only if it is not claimed by
+        # another line of the table (size_items / type_id appear in several clauses)
+        claimed_elsewhere = set()
+        for name2, lp2, rp2, want2, c2 in EXACT:
+            if name2 == name:
+                continue
+            for idx, (a, op, b_, ln) in enumerate(rels):
+                o = _orient(a, op, b_, lp2)
+                if o is not None and rp2(o[2]) and o[1] == want2:
+                    claimed_elsewhere.add(idx)
+        wrong = [w for w in wrong if w[0] not in claimed_elsewhere]
+        ok = len(found) >= count
+        rep.ob(rule, "check | refuses when " + name, ok,
+               "clause present %d time(s) with the refusing relation `%s`" % (len(found), SYM[want]) if ok else
+               "check must refuse a file when %s; found %d such comparison(s) (need %d)%s" % (
+                   name, len(found), count,
+                   "; a comparison of that shape refuses on `%s` instead" % SYM[wrong[0][1]] if wrong else ""),
+               b.loc(found[0][1]) if found else (b.loc(wrong[0][2]) if wrong else b.loc()))
     # HeaderRest::check: non-negative counts and size_items divisible by 4
     h = prog.one("libtw2_datafile::format::HeaderRest::check")
     hir = IR(h)
